@@ -3,4 +3,63 @@ from harness import pipeline, level2
 
 
 def units(prop):
-    return [pipeline.level1_unit(prop), level2.level2_unit(prop), level2.pair_unit(prop)]
+    return [pipeline.level1_unit(prop), level2.level2_unit(prop), level2.pair_unit(prop), args_unit()]
+
+
+# ------------------------------------------------------------------------------------------------ command-line wiring (concrete)
+from symx.runner import Unit  # noqa: E402
+
+
+def body_args(E, cfg):
+    """NOT solver-decided (argparse takes concrete strings): each scoring option given on the command line must arrive, through
+    Args.parse and WorkflowCoordinatorFactory.create, in the component that uses it."""
+    import os
+    import tempfile
+    from src.args import Args
+    from src.extensions.dispatcher import Dispatcher
+    from src.workflow_coordinator_factory import WorkflowCoordinatorFactory
+    vals = E.choose(cfg["value_sets"], "value-set")
+    d = tempfile.mkdtemp(prefix="coma_c04_")
+    try:
+        for n in ("r.cmap", "q.cmap"):
+            open(os.path.join(d, n), "w").write("#h CMapId\n")
+        argv = ["-r", os.path.join(d, "r.cmap"), "-q", os.path.join(d, "q.cmap"), "-o", os.path.join(d, "o.xmap"),
+                "-sp", str(vals["sp"]), "-dp", str(vals["dp"]), "-su", str(vals["su"]), "-d", str(vals["d"]), "-ms", str(vals["ms"]),
+                "-bs", str(vals["bs"]), "-sj", str(vals["sj"]), "-ss", str(vals["ss"]), "-p", str(vals["p"]), "-diff", str(vals["diff"])]
+        try:
+            args = Args.parse(argv)
+            coord = WorkflowCoordinatorFactory(args, Dispatcher([]), None).create()
+        except BaseException as ex:  # noqa
+            E.fail("exception:" + type(ex).__name__)
+            return ["exception", type(ex).__name__]
+        for f in (args.referenceFile, args.queryFile, args.outputFile):
+            try:
+                f.close()
+            except Exception:  # noqa
+                pass
+    finally:
+        import shutil
+        shutil.rmtree(d, ignore_errors=True)
+    E.tag("nontrivial")
+    a = coord.aligner
+    E.check("perfectMatchScore-reaches-the-position-scorer", a.scorer.perfectMatchScore == vals["sp"])
+    E.check("distancePenaltyMultiplier-reaches-the-position-scorer", a.scorer.distancePenaltyMultiplier == vals["dp"])
+    E.check("unmatchedPenalty-reaches-the-position-scorer", a.scorer.unmatchedPenalty == vals["su"])
+    E.check("maxPairDistance-reaches-the-pairing-engine", a.alignmentEngine.maxDistance == vals["d"])
+    E.check("minScore-reaches-the-segment-factory", a.segmentsFactory.minScore == vals["ms"])
+    E.check("breakSegmentThreshold-reaches-the-segment-factory", a.segmentsFactory.breakSegmentThreshold == vals["bs"])
+    sc = a.segmentConflictResolver.segmentChainer.sequentialityScorer
+    E.check("join-options-reach-the-sequentiality-scorer", sc.segmentJoinMultiplier == vals["sj"] and sc.sequentialityScore == vals["ss"])
+    E.check("peaksCount-and-maxDifference", coord.peaksSelector.count == vals["p"] and args.peaksCount == vals["p"] and args.maxDifference == vals["diff"])
+    return [sorted(vals.items())]
+
+
+def args_unit():
+    sets = [dict(sp=11, dp=0.5, su=-7, d=13, ms=17, bs=19, sj=0.25, ss=1, p=2, diff=23),
+            dict(sp=1000, dp=2.0, su=-250, d=1500, ms=900, bs=1300, sj=1.0, ss=0, p=5, diff=50000)]
+    return Unit(name="command-line-wiring", body=body_args, configs=lambda tier: [dict(value_sets=sets)], witness=False,
+                functions=["src.args:Args.parse", "src.workflow_coordinator_factory:WorkflowCoordinatorFactory.create"],
+                bounds="NOT solver-decided: two concrete option sets with pairwise distinct values through Args.parse and the factory",
+                nontrivial_rule="every option set",
+                assumptions=["argparse takes concrete strings; this is a concrete wiring confirmation"],
+                outside=["other option values"])
